@@ -75,6 +75,7 @@ class Scenario(object):
         if self.profile:
             return self._profile_script(rec, toks)
         bench = toks[-1]
+        suite_cmd = toks[-2]   # 'h' (suite S) or 'h2' (suite S2)
         dps = []
         out = ''
         for _it in range(self.iterations):
@@ -92,14 +93,14 @@ class Scenario(object):
         return drive.Outcome(0, out)
 
     def _profile_script(self, rec, toks):
-        if toks[0] == 'perf' and toks[1] != 'report' and 'record' not in rec['args'].split('--output')[0] \
-                and '--input=profile.perf' in rec['args']:
-            # `perf report`: the serial travels in a symbol name
+        """`perf record … <cmd>` starts the invocation; `perf report …` delivers the profile,
+        whose symbol name carries the serial"""
+        if 'report' in toks:
             s = self.next_serial()
-            self.starts.append({'session': self.session, 'bench': self._last_bench, 'exe': 'perf',
+            self.starts.append({'session': self.session, 'bench': self._last[0], 'exe': self._last[1],
                                 'dps': [[('profile', s)]], 'n': len(self.starts)})
-            return drive.Outcome(0, '  50.00%%  exe  sym%d\n' % s)
-        self._last_bench = toks[-1]
+            return drive.Outcome(0, '# perf\n    50.00%%  exe  libx.so  [.] sym%d\n' % s)
+        self._last = (toks[-1], toks[-3].rsplit('/', 1)[-1])
         return drive.Outcome(0, '')
 
     def run(self, extra_argv=(), filters=()):
@@ -162,6 +163,16 @@ def parse_file(text):
                 d['bench'] = cols[5]
                 d['exe'] = cols[6]
                 d['run_col'] = int(cols[14])
+            elif (len(cols) == 13 and cols[0].isdigit() and cols[1].isdigit() and cols[11].isdigit()
+                  and cols[12].startswith('[')):
+                # profile data line: invocation, numIterations, run columns, json
+                d['kind'] = 'prof'
+                d['inv'] = int(cols[0])
+                d['bench'] = cols[2]
+                d['exe'] = cols[3]
+                d['run_col'] = int(cols[11])
+                m = re.search(r'sym(\d+)', cols[12])
+                d['serial'] = int(m.group(1)) if m else None
             else:
                 d['kind'] = 'other'
         out.append(d)
